@@ -1,0 +1,21 @@
+//go:build !verif
+
+// Package verifhook holds observation points for the runtime monitors kept outside
+// this repository. Without the "verif" build tag every function is empty and is
+// inlined away.
+package verifhook
+
+// Tick counts one logical step at site.
+func Tick(site string) {}
+
+// Yield marks a point where the scheduler may be perturbed.
+func Yield(site string) {}
+
+// Acquire reports that obj was taken from the pool named kind.
+func Acquire(kind string, obj any) {}
+
+// Release reports that obj is about to be returned to the pool named kind.
+func Release(kind string, obj any) {}
+
+// Poison is given memory that is about to be handed back to a pool.
+func Poison(b []byte) {}
